@@ -7,9 +7,11 @@ RUN_MODULE = "RunC08"
 DRIVER = "equalizer_sim.py"
 SHARD = 400
 RULE = ("one case = one comparison run of the real Equalizer over a script (sequence of recording ids, each with one of "
-        "23 behaviour texts: 9 verdict-level, 9 process-level, 2 answer-level (the parent cannot load the answer / the worker answers (False, message)) + 3 in the F08 probe streams) in dedicated (simulated multiprocessing) or in-process "
+        "behaviour texts: 9 verdict-level, 9 process-level, 2 answer-level (the parent cannot load the answer / the worker answers (False, message)), 3 in the F08 probe streams, and 115 verdict shapes (what the comparator returns: a ComparatorResult or an instance of a subclass of it with any of the 5 statuses or a value that is no status, message none / text / falsy non-text / structured / number, with or without a diff; or a bare value that is no status)) in dedicated (simulated multiprocessing) or in-process "
         "mode, recycle rate, timeout, keep-results on/off, consumed fully / closed after n / consumer raising after n / "
         "id source raising after n; each case also plays every recording alone and the whole script in the other mode; "
+        "a comparison is observed whole: label, status, message kind, diff (whose recording it names), class of the "
+        "verdict object, attached replay, expected/actual, exception flags; "
         "non-trivial = at least two recordings and at least one behaviour other than 'equal'; distinct = distinct case")
 EXHAUSTIVE = {"quick": False, "thorough": True}
 ASSUMPTIONS = ["scheduling of parent and worker is the one implemented by harness/impl/fake_mp.py (worker runs whenever "
@@ -19,6 +21,12 @@ ASSUMPTIONS = ["scheduling of parent and worker is the one implemented by harnes
                "results cross the process boundary unchanged or not at all (pickling is not modelled: a result that "
                "does not pickle in the worker is the behaviour 'drops', one that does not unpickle in the parent is "
                "'unloadable')",
+               "the comparator's subclass of ComparatorResult is declared at module level (it pickles); a locally "
+               "declared one is the behaviour 'drops'; the real-process script of the thorough tier sends diffs, "
+               "structured messages and subclass instances through a real pipe",
+               "an unrenderable verdict (message that is not text and truthy, status that is no EqualityStatus) is "
+               "expected to cost a framework failure of its own recording at most: the direct predicate accepts the "
+               "comparator's status or EqualizerFailure for it (the model says EqualizerFailure, as the code does)",
                "closing / dropping a suspended generator runs its finally block (Python semantics) - abandonment "
                "after n yields is modelled as the run over the first n recordings"]
 TRUSTED = ["fake multiprocessing / clock / kill (harness/impl/fake_mp.py) under the real Equalizer",
@@ -211,7 +219,7 @@ def search_harder(rng, bad_cases):
 
 MANIFEST = dict(
     design_ref='6/C08',
-    text="Coq theorems over all scripts (sequences of recording ids with a per-recording behaviour: equal, different, player / extractor / comparator raises, bare status, worker exits, hangs, answers late, slow, answer lost in transit, worker dies before taking the task, answer that the parent cannot load or that the worker sent as (False, message)), all recycle rates, timeouts and keep-results settings, about a hand-written model of run_comparison, the dispatch/wait/timeout/recycle logic and the worker loop with explicit task queue, result queue, worker table and terminate flag: one comparison per id in input order with the right label (even with late answers); without late answers, stale tasks and lost answers the whole output is the map of the single-recording verdict (failures local, EqualizerFailure for every fault kind); dedicated and in-process modes agree; the late-answer, stale-task and lost-answer (read lock held by a killed idle worker) clauses are refuted with witnesses (known finding F08, three signatures) and the full statement is proved for the candidate repair (fresh queues per worker). Model tied to /repo on every run by running the REAL Equalizer single-threaded over fake multiprocessing/clock/kill on generated scripts and comparing every yielded comparison with the model by vm_compute; direct predicate: labels/order/count, attached replay belongs to the labelled id, verdict equals that recording played alone, failures become EqualizerFailure for that recording only, both modes agree; thorough tier adds real-process scripts.",
+    text="Coq theorems over all scripts (sequences of recording ids with a per-recording behaviour: equal, different, player / extractor / comparator raises, bare status, worker exits, hangs, answers late, slow, answer lost in transit, worker dies before taking the task, answer that the parent cannot load or that the worker sent as (False, message)), all recycle rates, timeouts and keep-results settings, about a hand-written model of run_comparison, the dispatch/wait/timeout/recycle logic and the worker loop with explicit task queue, result queue, worker table and terminate flag: one comparison per id in input order with the right label (even with late answers); without late answers, stale tasks and lost answers the whole output is the map of the single-recording verdict (failures local, EqualizerFailure for every fault kind); for every shape of comparator result (any status or a value that is none, any message, diff, subclass instance) the comparison carries the comparator's own status, diff and class when the framework can render the verdict in its log line and is a framework failure of that recording only when it cannot; the diff attached to a verdict is that recording's or none; dedicated and in-process modes agree on the whole comparison (diff and class of the verdict included); the late-answer, stale-task and lost-answer (read lock held by a killed idle worker) clauses are refuted with witnesses (known finding F08, three signatures) and the full statement is proved for the candidate repair (fresh queues per worker). Model tied to /repo on every run by running the REAL Equalizer single-threaded over fake multiprocessing/clock/kill on generated scripts and comparing every yielded comparison with the model by vm_compute; direct predicate: labels/order/count, attached replay belongs to the labelled id, verdict equals that recording played alone, failures become EqualizerFailure for that recording only, the verdict's diff and class are the comparator's for that recording, an exception leaving run_comparison is a failure, both modes agree on the whole comparison; thorough tier adds real-process scripts.",
     note='Trusted: Coq kernel + vm_compute; hand-written model; the scheduling implemented by the fake multiprocessing layer (one resolution of each race; real interleavings, pickling across the pipe and a worker killed while holding a queue lock are runtime residue, sampled by the real-process scripts); os.kill succeeds. Late answers / stale tasks / lost answers are known finding F08 (probe streams, KNOWN-FINDING lines).',
     technique='Coq proof (invariant over the parent loop, induction over scripts and over the wait loop) + model/implementation correspondence by vm_compute over a deterministic multiprocessing simulator + real-process sampling',
 )
